@@ -181,7 +181,11 @@ def emit_iface(g, I):
             o.append('        self.log.lock().unwrap().push(format!("hdr|{}|{}", hdr.member().map(|m| m.to_string()).unwrap_or_default(), hdr.primary().serial_num()));')
         if m['conn']:
             o.append('        let _ = conn.unique_name();')
-        if m['server']:
+        if m['server'] and m['async']:
+            # the handler uses the object server it was given (a removal that finds nothing: the tree
+            # has to be lockable for writing while the handler runs)
+            o.append('        let _ = server.remove::<Self, _>("/gen/none/there").await;')
+        elif m['server']:
             o.append('        let _ = server;')
         if m['async']:
             o.append('        yield_now().await;')
